@@ -400,6 +400,25 @@ def run(index, rep, tier):
                       "Node.%s calls `%s`: the traversal nests one generator per level of the tree, so on a caterpillar a few thousand leaves long every operation that walks the tree - suppress_unifurcations inside reseed_at / reroot_at_node / to_outgroup_position, ladderize, encode_bipartitions - fails with RecursionError where the explicit-stack version handles 20000 levels" % (name, norm(rec[0])[:50] if rec else ""))
         rep.floor("R07.11", "basic traversals of Node", 4, n11)
 
+    # ---- R07.12 the length of a tree is the sum over ALL its edges
+    with rep.section("R07.12"):
+        rep.rule("R07.12", "the length of a tree is the sum over all its edges: the loop of Tree.length over the edge iterator has no break / return inside, and the only thing that keeps an edge out of the sum is that its own length is None - an early exit makes the total depend on where in post-order the first length-less edge sits, so it changes under re-seeding although no length did")
+        tl_ = index.function(TREE + ".length")
+        loops = [l for l in walk_no_nested(tl_.node) if isinstance(l, ast.For) and any(isinstance(c, ast.Call) and call_name(c).endswith("edge_iter") for c in ast.walk(l.iter))]
+        sums = [c for c in calls_in(tl_.node) if call_name(c) == "sum"]
+        if not loops and not sums:
+            raise AnalysisError("R07.12: Tree.length: summation over the edges not recognised")
+        for l in loops:
+            esc = [x for st in l.body for x in ast.walk(st) if isinstance(x, (ast.Break, ast.Return))]
+            rep.check(not esc, "R07.12", tl_.qualname, "the summation leaves the loop early", fn_where(tl_, esc[0] if esc else l), "Tree.length visits every edge",
+                      "Tree.length leaves its loop over the edges at `%s`: edges after the first one without a length are not counted, so the total is the sum of whatever precedes that edge in post-order - for ((A:1,B:2),(C:3,D:4):5,E:6) 3 instead of 21, and a different number after every re-seeding" % (norm_stmt(esc[0]) if esc else ""))
+            tv = {x.id for x in ast.walk(l.target) if isinstance(x, ast.Name)}
+            conds = [x.test for st in l.body for x in ast.walk(st) if isinstance(x, ast.If)]
+            odd = [t for t in conds if not (isinstance(t, ast.Compare) and len(t.ops) == 1 and isinstance(t.ops[0], (ast.Is, ast.IsNot)) and is_none(t.comparators[0]) and norm(t.left).split(".")[0] in tv)]
+            rep.check(not odd, "R07.12", tl_.qualname, "edges left out of the sum for another reason than a missing length", fn_where(tl_, odd[0] if odd else l), "Tree.length: only a None length keeps an edge out",
+                      "Tree.length skips edges under `%s`: only a missing (None) length may keep an edge out of the total (a zero or negative length is a length)" % (norm(odd[0])[:50] if odd else ""))
+        rep.ob("R07.12", fn_where(tl_), "Tree.length: %d summation loops examined" % len(loops), True)
+
 
 def pm_target(fi, call):
     pm = parent_map(fi.node)
